@@ -1113,14 +1113,18 @@ impl Probe {
     }
 
     pub(crate) fn update_next_send(&mut self, now: u64) {
+        // A query that goes out later than planned moves the rest of the
+        // schedule, and with it the end of the probe, by the same time.
+        self.start_time += now.saturating_sub(self.next_send);
         self.next_send = now + 250;
     }
 
     /// Returns whether this probe is finished.
     pub(crate) fn expired(&self, now: u64) -> bool {
         // The 2nd query is T + 250ms, the 3rd query is T + 500ms,
-        // The expire time is T + 750ms
-        now >= self.start_time + 750
+        // The expire time is T + 750ms, once the three queries have been
+        // sent: `next_send` has moved on to that time.
+        now >= self.start_time + 750 && self.next_send >= self.start_time + 750
     }
 }
 
